@@ -2537,6 +2537,63 @@ def check_static_hash(res, sources):
                 ": an in-place change of a static field keeps the old jit cache key and replays the stale trace")
     else:
         res.ok("R-STATIC-HASH", f"{cls.name}:content-digest", {"line": init.lineno})
+    # the wrapper must be BUILT on every flatten: a flatten function (one that, directly or through nested helpers, constructs
+    # the wrapper) neither stores anything on the instance it flattens nor reads a remembered value from it, and every path to
+    # its return evaluates the construction -- a digest remembered per instance keeps the jit cache key of the old content
+    funcs = [f for f in ast.walk(mod) if isinstance(f, (ast.FunctionDef, ast.AsyncFunctionDef))]
+
+    def builds(f, depth=0):
+        local = {g.name: g for g in ast.walk(f) if isinstance(g, ast.FunctionDef) and g is not f}
+        for c in ast.walk(f):
+            if isinstance(c, ast.Call):
+                fn_ = c.func
+                if isinstance(fn_, ast.Name) and fn_.id == cls.name:
+                    return True
+        return False
+    flatteners = []
+    for f in funcs:
+        if f in cls.body or f.name in methods and f in methods.values():
+            continue
+        nested = [g for g in ast.walk(f) if isinstance(g, ast.FunctionDef) and g is not f]
+        own_nested_builders = [g for g in nested if builds(g)]
+        # outermost function whose nested helper (or itself) constructs the wrapper and that RETURNS (it is the flatten function)
+        if own_nested_builders and any(isinstance(r, ast.Return) for r in f.body) :
+            flatteners.append((f, own_nested_builders))
+        elif builds(f) and not any(f in [g for g in ast.walk(o) if g is not o] for o, _ in flatteners) and \
+                not any(isinstance(g, ast.FunctionDef) and builds(g) and f in ast.walk(g) and g is not f for g in funcs):
+            if any(isinstance(r, ast.Return) for r in ast.walk(f)) and not any(f in ast.walk(o) and o is not f for o in funcs if builds(o) and o is not f and any(g is f for g in ast.walk(o))):
+                flatteners.append((f, [f]))
+    flatteners = [(f, b) for f, b in flatteners if len(f.args.args) >= 1]
+    if not flatteners:
+        raise AnalysisError(f"{rel}: no flatten function constructing {cls.name} found")
+    for f, bld in flatteners:
+        inst = f.args.args[0].arg
+        helper_names = {g.name for g in bld if g is not f}
+        problems = []
+        for c in ast.walk(f):
+            if isinstance(c, ast.Call):
+                t = ast.unparse(c.func)
+                if t in ("object.__setattr__", "setattr") and c.args and isinstance(c.args[0], ast.Name) and c.args[0].id == inst:
+                    problems.append((c.lineno, f"`{ast.unparse(c)[:60]}` stores on the flattened instance"))
+                if t in ("getattr",) and len(c.args) == 3 and isinstance(c.args[0], ast.Name) and c.args[0].id == inst:
+                    problems.append((c.lineno, f"`{ast.unparse(c)[:60]}` reads an optional (remembered) attribute of the instance"))
+            if isinstance(c, ast.Attribute) and c.attr == "__dict__" and isinstance(c.value, ast.Name) and c.value.id == inst:
+                problems.append((c.lineno, f"`{inst}.__dict__` is consulted in the flatten function"))
+            if isinstance(c, (ast.Assign, ast.AugAssign)):
+                for tg in (c.targets if isinstance(c, ast.Assign) else [c.target]):
+                    if isinstance(tg, ast.Attribute) and isinstance(tg.value, ast.Name) and tg.value.id == inst:
+                        problems.append((c.lineno, f"`{ast.unparse(tg)}` is assigned on the flattened instance"))
+        decos = [ast.unparse(d) for d in f.decorator_list] + [ast.unparse(d) for g in bld for d in g.decorator_list]
+        if any("cache" in d for d in decos):
+            problems.append((f.lineno, f"a caching decorator ({[d for d in decos if 'cache' in d][0]}) remembers the result"))
+        key = f"{f.name}:wrapper-built-on-every-flatten"
+        if problems:
+            ln, why = sorted(problems)[0]
+            res.bad("R-STATIC-HASH", key, rel, ln,
+                    f"{f.name}: {why}: the content digests of the static fields are then not recomputed on every flatten, so an "
+                    f"in-place change of a static numpy field keeps the old jit cache key and replays the stale trace")
+        else:
+            res.ok("R-STATIC-HASH", key, {"line": f.lineno, "builders": sorted(helper_names) or [f.name]})
 
 
 # --------------------------------------------------------------------------------------
@@ -2622,6 +2679,13 @@ MUTANTS = [
     # R-HOSTCOPY / R-STATIC-HASH
     {"id": "put-data-no-copy", "expect": ("R-HOSTCOPY", "_put_data_jax:types.DataJAX"),
      "edits": [(IO, _COPY_IMPL, "  data_jax = types.DataJAX(**impl_fields)\n")]},
+    {"id": "static-meta-memoised-on-instance", "expect": ("R-STATIC-HASH", "wrapper-built-on-every-flatten"),
+     "edits": [(DC, "      meta = tuple(to_meta(f, x) for f in meta_fields)\n      return data, meta",
+                "      meta = x.__dict__.get('_static_meta')\n      if meta is None:\n        meta = tuple(to_meta(f, x) for f in meta_fields)\n"
+                "        object.__setattr__(x, '_static_meta', meta)\n      return data, meta")]},
+    {"id": "ctl-static-meta-list-then-tuple", "expect": None,
+     "edits": [(DC, "      meta = tuple(to_meta(f, x) for f in meta_fields)\n      return data, meta",
+                "      metas = [to_meta(f, x) for f in meta_fields]\n      meta = tuple(metas)\n      return data, meta")]},
     {"id": "static-digest-memoised", "expect": ("R-STATIC-HASH", "content-digest"),
      "edits": [(DC, "_T = TypeVar('_T')\n", "_T = TypeVar('_T')\n_DIGESTS = {}\n"),
                (DC, "  def __init__(self, arr: np.ndarray):\n    if arr.size == 0:",
